@@ -48,16 +48,17 @@ Qed.
 (** ** pixels over the reals *)
 Local Open Scope R_scope.
 
-Lemma pixel_real g L q : ExactMiddle g L ->
-  2 * IZR (fst (pixCen g L q)) = IZR (eminx (pixExt g L q)) + IZR (emaxx (pixExt g L q)) /\
-  2 * IZR (snd (pixCen g L q)) = IZR (eminy (pixExt g L q)) + IZR (emaxy (pixExt g L q)) /\
-  IZR (emaxx (pixExt g L q)) - IZR (eminx (pixExt g L q)) = IZR (quadSpan g L) /\
-  IZR (emaxy (pixExt g L q)) - IZR (eminy (pixExt g L q)) = IZR (quadSpan g L).
+(** the box of a pixel relative to its centre, as the model computes them (no assumption that the centre is the
+    middle: for an odd pixel size it is half a unit to the left and below) *)
+Lemma pixel_box g L q :
+  IZR (eminx (pixExt g L q)) = IZR (fst (pixCen g L q)) - IZR (quadSpan g L / 2) /\
+  IZR (emaxx (pixExt g L q)) = IZR (fst (pixCen g L q)) + (IZR (quadSpan g L) - IZR (quadSpan g L / 2)) /\
+  IZR (eminy (pixExt g L q)) = IZR (snd (pixCen g L q)) - IZR (quadSpan g L / 2) /\
+  IZR (emaxy (pixExt g L q)) = IZR (snd (pixCen g L q)) + (IZR (quadSpan g L) - IZR (quadSpan g L / 2)).
 Proof.
-  intro Ex. destruct (centre_is_middle g L (fst q) (snd q) Ex) as [Mx My]. destruct (pix_span g L q) as [Sx Sy].
-  unfold pixCen, pixExt in *.
-  apply (f_equal IZR) in Mx, My, Sx, Sy. rewrite mult_IZR, plus_IZR in Mx, My. rewrite minus_IZR in Sx, Sy.
-  repeat split; assumption.
+  unfold pixExt, pixCen, quadExtent, quadCentroid. cbn [eminx emaxx eminy emaxy fst snd].
+  set (S := quadSpan g L). set (hS := (S / 2)%Z).
+  rewrite !plus_IZR, !mult_IZR, !plus_IZR. repeat split; ring.
 Qed.
 
 Lemma PIn_real a b t e : PIn a b t e ->
@@ -75,7 +76,7 @@ Definition ry (a b : pt) (t : Q) : R := IZR (snd a) + Q2R t * (IZR (snd b) - IZR
 (** ** one contact: the moving point v (from the point of c d with parameter u, in the pixel qd, to the centre of qd)
        lies at time l0 on the moving fragment of a b between the parameters ta (pixel q1) and tb (pixel q2), at mu:
        then a b is inside the pixel qd at a rational parameter between ta and tb *)
-Lemma contact_pixel g L a b c d q1 q2 qd (ta tb u : Q) (l0 mu : R) : ExactMiddle g L -> (0 < gres g)%Z ->
+Lemma contact_pixel g L a b c d q1 q2 qd (ta tb u : Q) (l0 mu : R) : (0 < gres g)%Z ->
   PIn a b ta (pixExt g L q1) -> PIn a b tb (pixExt g L q2) -> PIn c d u (pixExt g L qd) -> (ta < tb)%Q ->
   0 <= l0 <= 1 -> 0 <= mu <= 1 ->
   (rx c d u + l0 * (IZR (fst (pixCen g L qd)) - rx c d u) =
@@ -86,14 +87,14 @@ Lemma contact_pixel g L a b c d q1 q2 qd (ta tb u : Q) (l0 mu : R) : ExactMiddle
    mu * ((ry a b tb + l0 * (IZR (snd (pixCen g L q2)) - ry a b tb)) - (ry a b ta + l0 * (IZR (snd (pixCen g L q1)) - ry a b ta)))) ->
   exists m : Q, (ta <= m /\ m <= tb)%Q /\ PIn a b m (pixExt g L qd).
 Proof.
-  intros Ex Hr Pa Pb Pv Hlt [L0 L1] [M0 M1] Eqx Eqy.
-  destruct (pixel_real g L q1 Ex) as [A1 [A2 [A3 A4]]]. destruct (pixel_real g L q2 Ex) as [B1 [B2 [B3 B4]]].
-  destruct (pixel_real g L qd Ex) as [D1 [D2 [D3 D4]]].
+  intros Hr Pa Pb Pv Hlt [L0 L1] [M0 M1] Eqx Eqy.
+  destruct (pixel_box g L q1) as [A1 [A2 [A3 A4]]]. destruct (pixel_box g L q2) as [B1 [B2 [B3 B4]]].
+  destruct (pixel_box g L qd) as [D1 [D2 [D3 D4]]].
   destruct (PIn_real _ _ _ _ Pa) as [Pa1 [Pa2 [Pa3 Pa4]]]. destruct (PIn_real _ _ _ _ Pb) as [Pb1 [Pb2 [Pb3 Pb4]]].
   destruct (PIn_real _ _ _ _ Pv) as [Pv1 [Pv2 [Pv3 Pv4]]].
   fold (rx a b ta) (ry a b ta) in Pa1, Pa2, Pa3, Pa4. fold (rx a b tb) (ry a b tb) in Pb1, Pb2, Pb3, Pb4.
   fold (rx c d u) (ry c d u) in Pv1, Pv2, Pv3, Pv4.
-  set (h := IZR (quadSpan g L) / 2) in *.
+  set (lo := - IZR (quadSpan g L / 2)) in *. set (hi := IZR (quadSpan g L) - IZR (quadSpan g L / 2)) in *.
   assert (Ex' : (1 - l0) * rx c d u + l0 * IZR (fst (pixCen g L qd)) =
                 (1 - mu) * ((1 - l0) * rx a b ta + l0 * IZR (fst (pixCen g L q1))) +
                 mu * ((1 - l0) * rx a b tb + l0 * IZR (fst (pixCen g L q2)))).
@@ -102,10 +103,10 @@ Proof.
                 (1 - mu) * ((1 - l0) * ry a b ta + l0 * IZR (snd (pixCen g L q1))) +
                 mu * ((1 - l0) * ry a b tb + l0 * IZR (snd (pixCen g L q2)))).
   { transitivity (ry c d u + l0 * (IZR (snd (pixCen g L qd)) - ry c d u)); [ring | rewrite Eqy; ring]. }
-  destruct (sweep_axis_R h l0 mu (rx a b ta) (rx a b tb) (IZR (fst (pixCen g L q1))) (IZR (fst (pixCen g L q2)))
-              (rx c d u) (IZR (fst (pixCen g L qd)))) as [X1 X2]; unfold h; try lra; try exact Ex'.
-  destruct (sweep_axis_R h l0 mu (ry a b ta) (ry a b tb) (IZR (snd (pixCen g L q1))) (IZR (snd (pixCen g L q2)))
-              (ry c d u) (IZR (snd (pixCen g L qd)))) as [Y1 Y2]; unfold h; try lra; try exact Ey'.
+  destruct (sweep_axis_R lo hi l0 mu (rx a b ta) (rx a b tb) (IZR (fst (pixCen g L q1))) (IZR (fst (pixCen g L q2)))
+              (rx c d u) (IZR (fst (pixCen g L qd)))) as [X1 X2]; unfold lo, hi in *; try lra; try exact Ex'.
+  destruct (sweep_axis_R lo hi l0 mu (ry a b ta) (ry a b tb) (IZR (snd (pixCen g L q1))) (IZR (snd (pixCen g L q2)))
+              (ry c d u) (IZR (snd (pixCen g L qd)))) as [Y1 Y2]; unfold lo, hi in *; try lra; try exact Ey'.
   apply Qlt_Rlt in Hlt.
   set (m := (1 - mu) * Q2R ta + mu * Q2R tb).
   assert (Hp : 0 <= mu * (Q2R tb - Q2R ta)) by (apply Rmult_le_pos; lra).
@@ -114,7 +115,7 @@ Proof.
   assert (Ewy : (1 - mu) * ry a b ta + mu * ry a b tb = IZR (snd a) + m * (IZR (snd b) - IZR (snd a))) by (unfold ry, m; ring).
   rewrite Ewx in X1, X2. rewrite Ewy in Y1, Y2.
   assert (Hm1 : Q2R ta <= m) by (unfold m; lra). assert (Hm2 : m <= Q2R tb) by (unfold m; lra). clearbody m.
-  apply (rationalize a b (pixExt g L qd) ta tb m); unfold h in *; lra.
+  apply (rationalize a b (pixExt g L qd) ta tb m); unfold lo, hi in *; lra.
 Qed.
 
 (** ** the two edges have no common point except at end points of both (disjoint edges; adjacent edges of a valid ring) *)
@@ -145,12 +146,12 @@ Proof. unfold orient3. rewrite minus_IZR, !mult_IZR, !minus_IZR. reflexivity. Qe
 
 Theorem steps_do_not_cross g P hs a b c d L l1 q1 q2 l2 m1 r1 r2 m2 : (0 < gres g)%Z -> RootCovers g ->
   insertPolygon g P = Ok hs -> In a (concat P) -> In b (concat P) -> In c (concat P) -> In d (concat P) ->
-  (L <= gdeep g)%nat -> ExactMiddle g L ->
+  (L <= gdeep g)%nat ->
   route g hs a b L = l1 ++ q1 :: q2 :: l2 -> route g hs c d L = m1 ++ r1 :: r2 :: m2 ->
   touch_only_at_ends a b c d ->
   ~ proper_cross (pixCen g L q1) (pixCen g L q2) (pixCen g L r1) (pixCen g L r2).
 Proof.
-  intros Hr C Hi Ha Hb Hc Hd HL Ex Eab Ecd Hst Hx.
+  intros Hr C Hi Ha Hb Hc Hd HL Eab Ecd Hst Hx.
   destruct (consecutive_params g P hs a b L l1 q1 q2 l2 Hr C Hi Ha Hb HL Eab) as [Hq1 [Hq2 [ta [tb [Oa [Ob Hab]]]]]].
   destruct (consecutive_params g P hs c d L m1 r1 r2 m2 Hr C Hi Hc Hd HL Ecd) as [Hr1 [Hr2 [ua [ub [Oc [Od Hcd]]]]]].
   pose proof Oa as [Ta0 [Ta1 Pa]]. pose proof Ob as [Tb0 [Tb1 Pb]]. pose proof Oc as [Ua0 [Ua1 Pc]]. pose proof Od as [Ub0 [Ub1 Pd]].
@@ -203,19 +204,19 @@ Proof.
   destruct (first_contact _ _ _ _ _ _ _ _ _ _ _ _ _ _ _ _ P1 NP0) as [l0 [[L0 L1] Hin]].
   unfold Incid, incid, Ax, Ay, Bx, By, Cx, Cy, Dx, Dy in Hin.
   destruct Hin as [[u [Hu [Ex1 Ey1]]] | [[u [Hu [Ex1 Ey1]]] | [[u [Hu [Ex1 Ey1]]] | [u [Hu [Ex1 Ey1]]]]]].
-  - destruct (contact_pixel g L a b c d q1 q2 r1 ta tb ua l0 u Ex Hr Pa Pb Pc Hab ltac:(lra) Hu Ex1 Ey1) as [m [[M1 M2] Pm]].
+  - destruct (contact_pixel g L a b c d q1 q2 r1 ta tb ua l0 u Hr Pa Pb Pc Hab ltac:(lra) Hu Ex1 Ey1) as [m [[M1 M2] Pm]].
     assert (Om : OnSeg a b m (pixExt g L r1)) by (split; [Lqa.lra |]; split; [Lqa.lra | exact Pm]).
     destruct (hot_pixel_between_consecutive g P hs a b L l1 q1 q2 l2 r1 ta tb m Hr C Hi Ha Hb HL Eab Oa Ob Hr1 Om M1 M2) as [E | E];
       (apply (shared_endpoint_no_cross cq1 cq2 cr1 cr2); [| exact Hx]; unfold cr1, cr2, cq1, cq2; rewrite E; auto).
-  - destruct (contact_pixel g L a b c d q1 q2 r2 ta tb ub l0 u Ex Hr Pa Pb Pd Hab ltac:(lra) Hu Ex1 Ey1) as [m [[M1 M2] Pm]].
+  - destruct (contact_pixel g L a b c d q1 q2 r2 ta tb ub l0 u Hr Pa Pb Pd Hab ltac:(lra) Hu Ex1 Ey1) as [m [[M1 M2] Pm]].
     assert (Om : OnSeg a b m (pixExt g L r2)) by (split; [Lqa.lra |]; split; [Lqa.lra | exact Pm]).
     destruct (hot_pixel_between_consecutive g P hs a b L l1 q1 q2 l2 r2 ta tb m Hr C Hi Ha Hb HL Eab Oa Ob Hr2 Om M1 M2) as [E | E];
       (apply (shared_endpoint_no_cross cq1 cq2 cr1 cr2); [| exact Hx]; unfold cr1, cr2, cq1, cq2; rewrite E; auto).
-  - destruct (contact_pixel g L c d a b r1 r2 q1 ua ub ta l0 u Ex Hr Pc Pd Pa Hcd ltac:(lra) Hu Ex1 Ey1) as [m [[M1 M2] Pm]].
+  - destruct (contact_pixel g L c d a b r1 r2 q1 ua ub ta l0 u Hr Pc Pd Pa Hcd ltac:(lra) Hu Ex1 Ey1) as [m [[M1 M2] Pm]].
     assert (Om : OnSeg c d m (pixExt g L q1)) by (split; [Lqa.lra |]; split; [Lqa.lra | exact Pm]).
     destruct (hot_pixel_between_consecutive g P hs c d L m1 r1 r2 m2 q1 ua ub m Hr C Hi Hc Hd HL Ecd Oc Od Hq1 Om M1 M2) as [E | E];
       (apply (shared_endpoint_no_cross cq1 cq2 cr1 cr2); [| exact Hx]; unfold cr1, cr2, cq1, cq2; rewrite E; auto).
-  - destruct (contact_pixel g L c d a b r1 r2 q2 ua ub tb l0 u Ex Hr Pc Pd Pb Hcd ltac:(lra) Hu Ex1 Ey1) as [m [[M1 M2] Pm]].
+  - destruct (contact_pixel g L c d a b r1 r2 q2 ua ub tb l0 u Hr Pc Pd Pb Hcd ltac:(lra) Hu Ex1 Ey1) as [m [[M1 M2] Pm]].
     assert (Om : OnSeg c d m (pixExt g L q2)) by (split; [Lqa.lra |]; split; [Lqa.lra | exact Pm]).
     destruct (hot_pixel_between_consecutive g P hs c d L m1 r1 r2 m2 q2 ua ub m Hr C Hi Hc Hd HL Ecd Oc Od Hq2 Om M1 M2) as [E | E];
       (apply (shared_endpoint_no_cross cq1 cq2 cr1 cr2); [| exact Hx]; unfold cr1, cr2, cq1, cq2; rewrite E; auto).
